@@ -16,8 +16,8 @@ RULE = ('(seq) random trees of nested config_scope entries (identifier, a/b, lis
 TIERS = {
     'quick': {'workers': 8, 'cases': 400, 'timeout': 900, 'thread_cases': 6, 'random_runs': 20, 'pct_runs': 9, 'preempt_samples': 40,
               'free_runs': 5, 'exhaustive': False},
-    'thorough': {'workers': 16, 'cases': 8000, 'timeout': 3400, 'thread_cases': 24, 'random_runs': 90, 'pct_runs': 45,
-                 'preempt_samples': 600, 'free_runs': 25, 'exhaustive': True},
+    'thorough': {'workers': 16, 'cases': 8000, 'timeout': 3400, 'thread_cases': 2, 'random_runs': 90, 'pct_runs': 45,
+                 'preempt_samples': 0, 'free_runs': 25, 'exhaustive': True},
 }
 REQUIRED_BUCKETS = ['entry:ident', 'entry:slash', 'entry:list', 'entry:none', 'entry:empty', 'entry:invalid-name', 'entry:invalid-type',
                     'entry:invalid-list', 'exit:return', 'exit:raise-Exception', 'exit:raise-BaseException', 'depth:4+',
@@ -414,7 +414,11 @@ def run_threads(ctx, case):
     for t in range(nt):
       st = one(sched.Policy('preempt', preempt=(t, -1, 0)), 'count')['steps'][t]
       points += [(t, k, j) for k in range(1, st + 1) for j in range(nt) if j != t]
-    for (t, k, j) in rng.sample(points, min(len(points), ctx.params['preempt_samples'])):
+    if ctx.params['preempt_samples']:
+      points = rng.sample(points, min(len(points), ctx.params['preempt_samples']))
+    else:
+      ctx.count('single_preemption_scenarios_enumerated')   # thorough: every single-preemption schedule of the scenario
+    for (t, k, j) in points:
       ctx.bucket('policy:preempt')
       one(sched.Policy('preempt', preempt=(t, k, j)), 'preempt(%d,%d,%d)' % (t, k, j))
   finally:
